@@ -98,7 +98,15 @@ def main():
             nq += 1
             labels[label] = labels.get(label, 0) + 1
             if r == z3.sat:
-                cex = {"label": label, "inputs": model_inputs(E, E.solver.model())}
+                model = E.solver.model()
+                if E.hints:
+                    # a counterexample inside the spec's replay hints (plain values that manifest through
+                    # the public API) is preferred; any model of the query is a genuine counterexample
+                    E.solver.set("timeout", 20000)
+                    if E.solver.check(*pc, neg, *E.hints) == z3.sat:
+                        model = E.solver.model()
+                    E.solver.set("timeout", E.query_timeout_ms)
+                cex = {"label": label, "inputs": model_inputs(E, model)}
                 break
             if r == z3.unknown:
                 raise Unsupported("solver answered unknown for " + label)
